@@ -71,6 +71,18 @@ reg('C06', 'translation_validation',
     'Trusted: refninja; whitelist of documented differences (Ninja colour flag, leading ./).',
     'DESIGN.md §2 C06')
 
+reg('C05', 'exploration',
+    'configure verdicts and the output paths really requested from the stub tool chain, observed '
+    'over an enumerated pair space and random source sets, plus source-tree hashing across the '
+    'whole configure/build/regenerate/clean/dist lifecycle',
+    'All 14028 pairs of a 168-path space (thorough; sample in quick) must configure with two '
+    'distinct objects under the build dir; same-stem pairs and scripts naming an output twice must '
+    'be refused with a non-zero status on both back ends; random sets (incl. ../ out of '
+    'submodules, no intermediate dirs) go through the full lifecycle with the source tree hashed.',
+    'Trusted: stubs; compile_commands.json output fields in the configure-only part (cross-checked '
+    'by C06 against what really runs).',
+    'DESIGN.md §2 C05')
+
 NOT_APPLICABLE = {}
 
 ALL = ['C%02d' % i for i in range(1, 21)]
